@@ -1799,16 +1799,20 @@ class Compiler:
         body += template("s = new_list", s=stream, new_list=self._new_list) + \
             template("a = s.append", a=append, s=stream)
 
-        # generate code
+        # generate code; the stream is concatenated on every exit (a
+        # failure inside the block may be handled further out, still
+        # inside the translated element, whose mapping lists this name)
         code = self.visit(node.node)
-        body.append(TranslationContext(code, append, stream))
+        body.append(ast.Try(
+            body=[TranslationContext(code, append, stream)],
+            handlers=[],
+            orelse=[],
+            finalbody=template("stream = ''.join(stream)", stream=stream),
+        ))
 
         # output msgid
         text = Text('${%s}' % node.name)
         body += self.visit(text)
-
-        # Concatenate stream
-        body += template("stream = ''.join(stream)", stream=stream)
 
         return body
 
